@@ -1,4 +1,4 @@
-import CJ.Lemmas.CodecDNS
+import CJ.Lemmas.CodecPath
 /-!
 # C15 — every encoder in the registration channels is inverted exactly by its decoder
 
@@ -7,43 +7,64 @@ Property theorems only; the models are in `CJ/Model/Codec.lean` (they mirror the
 `messageBuilder.WriteName`, empty tag rejected by `XORObfuscator.Obfuscate`).
 
 Every statement is for all payloads / names / messages / keys; no bound on any length.
-Cryptographic facts are the fields of `CryptoLaws` / `B32Laws` / `ProtoLaws`, hypotheses of the
-theorems that use them (never axioms); the last section shows they are satisfiable.
+Cryptographic facts are the fields of `CryptoLaws` / `B32Laws` / `ProtoLaws` / `NoiseLaws`, hypotheses
+of the theorems that use them (never axioms); the last section shows they are satisfiable.
+
+The section "the DNS registration channel end to end" composes the single codecs along the code paths
+`sendHandshake` → `send` → `RecvAndRespond` → `responseFor` → callback and back through
+`dnsRespToUDPResp` → `recvLoop` → `dnsResponsePayload` → `RequestAndRecv` (`request_path_roundtrip`,
+`request_accepts_iff`, `response_path_roundtrip`, `exchange_roundtrip`).
 -/
 namespace CJ.Props.C15
 open CJ.Codec
 
 /-! ## length framing (msgformat) -/
 
-/-- one-byte prefix: every payload the encoder accepts comes back unchanged -/
-theorem frame_roundtrip_request (p : Bytes) (h : p.length ≤ 255) :
-    (addRequestFormat p).bind removeRequestFormat = .ok p := by
+/-- one-byte prefix: every payload the encoder accepts comes back unchanged, whatever bytes `x` follow
+the framed payload in the decoder's input (the prefix is self-delimiting) -/
+theorem frame_roundtrip_request (p : Bytes) (h : p.length ≤ 255) (x : Bytes) :
+    (addRequestFormat p).bind (fun e => removeRequestFormat (e ++ x)) = .ok p := by
   have h' : ¬ p.length > 255 := by omega
-  simp only [addRequestFormat, h', if_false, Outcome.bind]
-  exact removeRequest_addRequest p h
+  simp only [addRequestFormat, h', if_false, Outcome.bind, List.cons_append]
+  exact removeRequest_addRequest_append p x h
 
 /-- one-byte prefix: a payload whose length does not fit is rejected with an error, not truncated -/
 theorem frame_rejects_oversize_request (p : Bytes) (h : 255 < p.length) :
     addRequestFormat p = .err .tooLong := by
   simp [addRequestFormat, h]
 
-/-- two-byte prefix: round trip -/
-theorem frame_roundtrip_response (p : Bytes) (h : p.length ≤ 65535) :
-    (addResponseFormat p).bind removeResponseFormat = .ok p := by
+/-- two-byte prefix: round trip, whatever bytes `x` follow (the requester hands its whole zero-padded
+4096-byte receive buffer to `RemoveResponseFormat`) -/
+theorem frame_roundtrip_response (p : Bytes) (h : p.length ≤ 65535) (x : Bytes) :
+    (addResponseFormat p).bind (fun e => removeResponseFormat (e ++ x)) = .ok p := by
   have h' : ¬ p.length > 65535 := by omega
   simp only [addResponseFormat, h', if_false, Outcome.bind]
-  exact removeResponse_addResponse p h
+  exact removeResponse_addResponse_append p x h
 
 /-- two-byte prefix: oversize rejected -/
 theorem frame_rejects_oversize_response (p : Bytes) (h : 65535 < p.length) :
     addResponseFormat p = .err .tooLong := by
   simp [addResponseFormat, h]
 
-/-- both formats at once: round trip up to the limit … -/
+/-- both formats at once: round trip up to the limit, with arbitrary trailing bytes … -/
 theorem frame_roundtrip :
+    (∀ p x : Bytes, p.length ≤ 255 →
+      (addRequestFormat p).bind (fun e => removeRequestFormat (e ++ x)) = .ok p) ∧
+    (∀ p x : Bytes, p.length ≤ 65535 →
+      (addResponseFormat p).bind (fun e => removeResponseFormat (e ++ x)) = .ok p) :=
+  ⟨fun p x h => frame_roundtrip_request p h x, fun p x h => frame_roundtrip_response p h x⟩
+
+/-- the special case without trailing bytes: the decoder applied to exactly the encoder's output -/
+theorem frame_roundtrip_exact :
     (∀ p : Bytes, p.length ≤ 255 → (addRequestFormat p).bind removeRequestFormat = .ok p) ∧
-    (∀ p : Bytes, p.length ≤ 65535 → (addResponseFormat p).bind removeResponseFormat = .ok p) :=
-  ⟨frame_roundtrip_request, frame_roundtrip_response⟩
+    (∀ p : Bytes, p.length ≤ 65535 → (addResponseFormat p).bind removeResponseFormat = .ok p) := by
+  constructor
+  · intro p h
+    have := frame_roundtrip_request p h []
+    simpa using this
+  · intro p h
+    have := frame_roundtrip_response p h []
+    simpa using this
 
 /-- … and an error beyond it (256 / 65536 bytes and more) -/
 theorem frame_rejects_oversize :
@@ -59,8 +80,10 @@ theorem frame_accepts_iff (p : Bytes) :
   · unfold addRequestFormat; split <;> simp [Outcome.isOk] <;> omega
   · unfold addResponseFormat; split <;> simp [Outcome.isOk] <;> omega
 
-/-- Why the range check is needed: the unchecked prefix (the code before the `fix:` commit) silently
-alters a 256-byte request — it decodes to the empty message. -/
+/-- **Illustration, not an obligation of the property**: this is about `addRequestFormatUnchecked`, the
+code *before* the `fix:` commit, which is not part of the modelled implementation. It shows why the
+range check is needed: the unchecked prefix silently alters a 256-byte request — it decodes to the
+empty message. -/
 theorem frame_unchecked_alters :
     removeRequestFormat (addRequestFormatUnchecked (List.replicate 256 0)) = .ok [] := by
   have h0 : UInt8.ofNat (List.replicate 256 (0 : UInt8)).length = 0 := by
@@ -204,6 +227,213 @@ theorem rr_rejects_oversize (b : Builder) (r : RR) (hn : ∀ l ∈ r.name, 0 < l
   obtain ⟨b1, _, _, hw, _⟩ := writeName_spec b r.name hn hc
   simp [writeRR, hw, Outcome.bind, h]
 
+/-! ## the DNS registration channel end to end (requester ⇄ responder)
+
+`requestEncode` = `sendHandshake` + `send`; `requestDecode` = `RecvAndRespond` up to the callback;
+`responseEncode` = `AddResponseFormat` + `dnsRespToUDPResp`; `responseDecode` = `recvLoop` +
+`dnsResponsePayload` + `RequestAndRecv`. Noise and base32 are parameters with the laws below. -/
+
+/-- Noise as a parameter: the peer's `ReadMessage` / `Decrypt` inverts `WriteMessage` / `Encrypt` -/
+structure NoiseLaws (seal_ : Bytes → Bytes) (open_ : Bytes → Option Bytes) : Prop where
+  inv : ∀ p, open_ (seal_ p) = some p
+
+/-- the name `send` builds for the registration `p`: the framed Noise message in base32, lower case,
+63-byte labels, base domain -/
+def requestName (seal_ enc : Bytes → Bytes) (dom : Name) (p : Bytes) : Name :=
+  chunks ((enc (UInt8.ofNat (seal_ p).length :: seal_ p)).map toLowerB) 63 ++ dom
+
+/-- **capacity** of a query name as arithmetic: a text of `L` bytes under `dom` takes `L` bytes, one
+length byte per started 63-byte label, and the encoding of `dom` -/
+theorem query_capacity (e : Bytes) (dom : Name) :
+    nameWireLen (chunks e 63 ++ dom) = e.length + (e.length + 62) / 63 + nameWireLen dom :=
+  nameWireLen_chunks e dom
+
+/-- the domain of the harness, `t.example.com` (15 bytes on the wire) -/
+def exampleDom : Name := [[0x74], [0x65, 0x78, 0x61, 0x6d, 0x70, 0x6c, 0x65], [0x63, 0x6f, 0x6d]]
+
+/-- under `t.example.com`, `send` accepts a base32 text iff it has at most 236 characters
+(`L + ⌈L/63⌉ + 15 ≤ 255`), i.e. at most 147 bytes of framed Noise message -/
+theorem query_capacity_example (e : Bytes) :
+    ((sendName e exampleDom).isOk = true ↔ e.length + (e.length + 62) / 63 + 15 ≤ 255) ∧
+    (e.length + (e.length + 62) / 63 + 15 ≤ 255 ↔ e.length ≤ 236) := by
+  refine ⟨?_, by omega⟩
+  unfold sendName queryName
+  rw [name_accepts_iff, query_capacity, List.length_map]
+  have hd : ∀ l ∈ exampleDom, 0 < l.length ∧ l.length ≤ 63 := by decide
+  have hw : nameWireLen exampleDom = 15 := by decide
+  rw [hw]
+  constructor
+  · exact fun h => h.2
+  · exact fun h => ⟨chunks_append_labels _ _ hd, h⟩
+
+/-- **request path, round trip**: whatever `sendHandshake` + `send` put on the wire for the
+registration `p`, `RecvAndRespond` hands exactly `p` to its callback — for every Noise / base32
+satisfying the laws, every base domain, query ID and `maxUDPPayload ≤ 4096` (the size the query's OPT
+RR announces) -/
+theorem request_path_roundtrip (seal_ : Bytes → Bytes) (open_ : Bytes → Option Bytes) (N : NoiseLaws seal_ open_)
+    (enc : Bytes → Bytes) (dec : Bytes → Option Bytes) (L : B32Laws enc dec) (dom : Name) (id : UInt16)
+    (maxUDP : Nat) (hm : maxUDP ≤ 4096) (p buf : Bytes) (h : requestEncode seal_ enc dom id p = .ok buf) :
+    requestDecode open_ dec dom maxUDP buf = some p := by
+  unfold requestEncode at h
+  obtain ⟨f, hf, hq⟩ := Outcome.bind_eq_ok h
+  unfold addRequestFormat at hf
+  split at hf
+  · cases hf
+  · rename_i hlen
+    cases hf
+    obtain ⟨hv, _, hparse⟩ := buildQuery_ok hq
+    unfold requestDecode
+    rw [lenientParse_of_ok hparse]
+    rw [responseFor_queryMessage id _ dom maxUDP hm dec (UInt8.ofNat (seal_ p).length :: seal_ p)
+      (by rw [upper_flatten_chunks_lower _ (L.upper _)]; exact L.inv _)]
+    simp only
+    rw [removeRequest_addRequest (seal_ p) (by omega)]
+    exact N.inv p
+
+/-- **request path, exactly what is accepted**: the encoder succeeds iff the Noise message fits the
+one-byte length prefix and the name fits `NewName`; it never panics and has no other way to fail -/
+theorem request_accepts_iff (seal_ enc : Bytes → Bytes) (dom : Name) (id : UInt16) (p : Bytes) :
+    (requestEncode seal_ enc dom id p).isOk = true ↔
+      (seal_ p).length ≤ 255 ∧ validName (requestName seal_ enc dom p) := by
+  unfold requestEncode addRequestFormat requestName
+  by_cases h : (seal_ p).length > 255
+  · simp only [h, if_true, Outcome.bind, Outcome.isOk]
+    constructor
+    · intro h'; cases h'
+    · intro h'; omega
+  · simp only [h, if_false, Outcome.bind]
+    rw [buildQuery_isOk_iff]
+    constructor
+    · exact fun hv => ⟨by omega, hv⟩
+    · exact fun hv => hv.2
+
+/-- a Noise message of more than 255 bytes is rejected with an error, not truncated -/
+theorem request_rejects_oversize (seal_ enc : Bytes → Bytes) (dom : Name) (id : UInt16) (p : Bytes)
+    (h : 255 < (seal_ p).length) : requestEncode seal_ enc dom id p = .err .tooLong := by
+  simp [requestEncode, addRequestFormat, h, Outcome.bind]
+
+/-- a registration whose name would take more than 255 bytes is rejected with `ErrNameTooLong`
+(for a base domain with valid labels). With `request_rejects_oversize` and `request_path_roundtrip`
+the three cases are exhaustive: see `request_accepts_iff_capacity`. -/
+theorem request_rejects_long_name (seal_ enc : Bytes → Bytes) (dom : Name) (id : UInt16) (p : Bytes)
+    (hp : (seal_ p).length ≤ 255) (hd : ∀ l ∈ dom, 0 < l.length ∧ l.length ≤ 63)
+    (h : 255 < nameWireLen (requestName seal_ enc dom p)) :
+    requestEncode seal_ enc dom id p = .err .nameTooLong := by
+  unfold requestName at h
+  have h' : ¬ (seal_ p).length > 255 := by omega
+  have hc := (checkLabels_none_iff _).mpr (chunks_append_labels
+    ((enc (UInt8.ofNat (seal_ p).length :: seal_ p)).map toLowerB) dom hd)
+  simp [requestEncode, addRequestFormat, h', Outcome.bind, buildQuery, sendName, queryName, newName, hc, h]
+
+/-- for a base domain with valid labels, acceptance is plain arithmetic on the two lengths: the Noise
+message has at most 255 bytes and its base32 text `e` satisfies `|e| + ⌈|e|/63⌉ + |dom| ≤ 255` -/
+theorem request_accepts_iff_capacity (seal_ enc : Bytes → Bytes) (dom : Name) (id : UInt16) (p : Bytes)
+    (hd : ∀ l ∈ dom, 0 < l.length ∧ l.length ≤ 63) :
+    (requestEncode seal_ enc dom id p).isOk = true ↔
+      (seal_ p).length ≤ 255 ∧
+      (enc (UInt8.ofNat (seal_ p).length :: seal_ p)).length +
+        ((enc (UInt8.ofNat (seal_ p).length :: seal_ p)).length + 62) / 63 + nameWireLen dom ≤ 255 := by
+  rw [request_accepts_iff, validName_iff]
+  unfold requestName
+  rw [query_capacity, List.length_map]
+  constructor
+  · exact fun h => ⟨h.1, h.2.2⟩
+  · exact fun h => ⟨h.1, chunks_append_labels _ _ hd, h.2⟩
+
+/-- **response path, round trip**: for a response message of the shape `responseFor` returns together
+with a payload (`ResponseShape`: QR set, RCODE 0, one TXT question for a valid name under `dom`,
+well-formed authority / additional sections) and every answer `r` whose framed Noise message fits the
+requester's 4096-byte buffer, what `RequestAndRecv` returns for the datagram `dnsRespToUDPResp` builds
+is exactly `r` — the zero padding of the buffer behind the payload is ignored -/
+theorem response_path_roundtrip (sealR : Bytes → Bytes) (openR : Bytes → Option Bytes) (N : NoiseLaws sealR openR)
+    (resp : Message) (dom : Name) (S : ResponseShape resp dom) (r buf : Bytes)
+    (hlen : (sealR r).length + 2 ≤ 4096) (h : responseEncode sealR resp r = .ok buf) :
+    responseDecode openR dom buf = some r := by
+  unfold responseEncode at h
+  obtain ⟨f, hf, hu⟩ := Outcome.bind_eq_ok h
+  unfold addResponseFormat at hf
+  split at hf
+  · cases hf
+  · cases hf
+    have hfl : (be16 (sealR r).length ++ sealR r).length = (sealR r).length + 2 := by simp [be16]
+    have htxt : (encodeTXT (be16 (sealR r).length ++ sealR r)).length ≤ 65535 := by
+      rw [encodeTXT_length, hfl]; omega
+    obtain ⟨q, buf', hq, hw, hparse⟩ := udpResponse_roundtrip resp dom S _ htxt
+    rw [hu] at hw
+    cases hw
+    unfold responseDecode
+    rw [hparse]
+    simp only
+    rw [dnsResponsePayload_answer resp dom S q hq, Option.getD_some, recvBuffer_of_le _ (by omega),
+      removeResponse_addResponse_append _ _ (by omega)]
+    exact N.inv r
+
+/-- … and the encoder does succeed on all of these: no error, no panic -/
+theorem response_path_total (sealR : Bytes → Bytes) (openR : Bytes → Option Bytes) (N : NoiseLaws sealR openR)
+    (resp : Message) (dom : Name) (S : ResponseShape resp dom) (r : Bytes) (hlen : (sealR r).length + 2 ≤ 4096) :
+    ∃ buf, responseEncode sealR resp r = .ok buf ∧ responseDecode openR dom buf = some r := by
+  have hfl : (be16 (sealR r).length ++ sealR r).length = (sealR r).length + 2 := by simp [be16]
+  have htxt : (encodeTXT (be16 (sealR r).length ++ sealR r)).length ≤ 65535 := by
+    rw [encodeTXT_length, hfl]; omega
+  obtain ⟨q, buf, hq, hw, hparse⟩ := udpResponse_roundtrip resp dom S _ htxt
+  have he : responseEncode sealR resp r = .ok buf := by
+    have h' : ¬ (sealR r).length > 65535 := by omega
+    simp only [responseEncode, addResponseFormat, h', if_false, Outcome.bind]
+    exact hw
+  exact ⟨buf, he, response_path_roundtrip sealR openR N resp dom S r buf hlen he⟩
+
+/-- the responder's size limit: a datagram within `maxUDPPayload` is sent as it is … -/
+theorem response_send_fits (sealR : Bytes → Bytes) (resp : Message) (maxUDP : Nat) (r buf : Bytes)
+    (h : responseEncode sealR resp r = .ok buf) (hfit : buf.length ≤ maxUDP) :
+    responseSend sealR resp maxUDP r = .ok buf := by
+  have : ¬ buf.length > maxUDP := by omega
+  simp [responseSend, h, Outcome.bind, this]
+
+/-- … and a longer one is **not delivered**: the responder logs an error and sends the response with an
+empty payload instead, so `RequestAndRecv` ends in `Decrypt` of the empty string (an authentication
+error with the real Noise). The answer is never delivered altered: the requester gets either `r` or
+whatever `openR []` is. -/
+theorem response_send_oversize (sealR : Bytes → Bytes) (openR : Bytes → Option Bytes) (resp : Message) (dom : Name)
+    (S : ResponseShape resp dom) (maxUDP : Nat) (r b0 : Bytes)
+    (h : responseEncode sealR resp r = .ok b0) (hbig : maxUDP < b0.length) :
+    ∃ buf, responseSend sealR resp maxUDP r = .ok buf ∧ responseDecode openR dom buf = openR [] := by
+  have htxt : (encodeTXT ([] : Bytes)).length ≤ 65535 := by rw [encodeTXT_length]; simp
+  obtain ⟨q, buf, hq, hw, hparse⟩ := udpResponse_roundtrip resp dom S [] htxt
+  refine ⟨buf, by simp [responseSend, h, Outcome.bind, hbig, hw], ?_⟩
+  unfold responseDecode
+  rw [hparse]
+  simp only
+  rw [dnsResponsePayload_answer resp dom S q hq, Option.getD_some, recvBuffer_of_le _ (by simp)]
+  have hz : ([] : Bytes) ++ List.replicate (4096 - ([] : Bytes).length) (0 : UInt8) =
+      be16 ([] : Bytes).length ++ [] ++ List.replicate 4094 0 := by
+    show List.replicate (4094 + 2) (0 : UInt8) = _
+    rw [List.replicate_succ, List.replicate_succ]
+    rfl
+  rw [hz, removeResponse_addResponse_append [] _ (by simp)]
+
+/-- **the whole exchange**: the query `requestEncode` builds is decoded to `p`; `responseFor` answers it
+with a message of the shape the response path needs; and every answer `r` that fits the buffer comes
+back to the requester unchanged -/
+theorem exchange_roundtrip (seal_ : Bytes → Bytes) (open_ : Bytes → Option Bytes) (Nq : NoiseLaws seal_ open_)
+    (sealR : Bytes → Bytes) (openR : Bytes → Option Bytes) (Nr : NoiseLaws sealR openR)
+    (enc : Bytes → Bytes) (dec : Bytes → Option Bytes) (L : B32Laws enc dec) (dom : Name) (id : UInt16)
+    (maxUDP : Nat) (hm : maxUDP ≤ 4096) (p r qbuf : Bytes)
+    (hq : requestEncode seal_ enc dom id p = .ok qbuf) (hlen : (sealR r).length + 2 ≤ 4096) :
+    requestDecode open_ dec dom maxUDP qbuf = some p ∧
+    ∃ resp f rbuf, responseFor (lenientParse qbuf) dom maxUDP dec = some (resp, some f) ∧
+      ResponseShape resp dom ∧
+      responseEncode sealR resp r = .ok rbuf ∧ responseDecode openR dom rbuf = some r := by
+  refine ⟨request_path_roundtrip seal_ open_ Nq enc dec L dom id maxUDP hm p qbuf hq, ?_⟩
+  unfold requestEncode at hq
+  obtain ⟨f, hf, hq'⟩ := Outcome.bind_eq_ok hq
+  obtain ⟨hv, _, hparse⟩ := buildQuery_ok hq'
+  have hS := okResponse_shape id _ dom hv
+  obtain ⟨rbuf, he, hd⟩ := response_path_total sealR openR Nr _ dom hS r hlen
+  refine ⟨_, f, rbuf, ?_, hS, he, hd⟩
+  rw [lenientParse_of_ok hparse]
+  exact responseFor_queryMessage id _ dom maxUDP hm dec f
+    (by rw [upper_flatten_chunks_lower _ (L.upper _)]; exact L.inv _)
+
 /-! ## tag obfuscators -/
 
 /-- the mask of the two high bits of the representative: what `Obfuscate` sets from a random byte,
@@ -229,12 +459,40 @@ theorem obfuscate_reveal_gcm (C : Crypto) (pubOf : C.Priv → C.Pub) (L : Crypto
     (h : gcmObfuscate C draws rb pt 32 (pubOf stPriv) = .ok ct) : gcmReveal C ct stPriv = .ok pt :=
   gcm_roundtrip C pubOf L draws rb pt stPriv ct h
 
-/-- values the encoders cannot represent are rejected with an error -/
+/-- a station key that is not 32 bytes long is rejected (CTR) -/
+theorem obfuscate_rejects_keylen_ctr (C : Crypto) (draws : List C.Priv) (rb : UInt8) (pt : Bytes) (n : Nat)
+    (pub : C.Pub) (hn : n ≠ 32) : ctrObfuscate C draws rb pt n pub = .err .keyLen := by
+  simp [ctrObfuscate, hn]
+
+/-- a station key that is not 32 bytes long is rejected (GCM) -/
+theorem obfuscate_rejects_keylen_gcm (C : Crypto) (draws : List C.Priv) (rb : UInt8) (pt : Bytes) (n : Nat)
+    (pub : C.Pub) (hn : n ≠ 32) : gcmObfuscate C draws rb pt n pub = .err .keyLen := by
+  simp [gcmObfuscate, hn]
+
+/-- the empty tag, which has no XOR encoding that `TryReveal` accepts, is rejected whatever the pad -/
+theorem obfuscate_rejects_empty_xor (pad : Bytes) : xorObfuscate pad [] = .err .emptyTag := by
+  simp [xorObfuscate]
+
+/-- values the encoders cannot represent are rejected with an error (the three facts above at once) -/
 theorem obfuscate_rejects (C : Crypto) (draws : List C.Priv) (rb : UInt8) (pt pad : Bytes) (n : Nat)
     (pub : C.Pub) (hn : n ≠ 32) :
     ctrObfuscate C draws rb pt n pub = .err .keyLen ∧ gcmObfuscate C draws rb pt n pub = .err .keyLen ∧
-    xorObfuscate pad [] = .err .emptyTag := by
-  simp [ctrObfuscate, gcmObfuscate, xorObfuscate, hn]
+    xorObfuscate pad [] = .err .emptyTag :=
+  ⟨obfuscate_rejects_keylen_ctr C draws rb pt n pub hn, obfuscate_rejects_keylen_gcm C draws rb pt n pub hn,
+    obfuscate_rejects_empty_xor pad⟩
+
+/-- a station key X25519 refuses (a low-order point, e.g. the all-zero key): an error, never an
+encoding (CTR) -/
+theorem obfuscate_rejects_low_order_ctr (C : Crypto) (draws : List C.Priv) (rb : UInt8) (pt : Bytes)
+    (pub : C.Pub) (k : C.Priv) (r : Bytes) (hf : firstRepresentable C draws = some (k, r))
+    (hdh : C.dh k pub = none) : ctrObfuscate C draws rb pt 32 pub = .err .crypto := by
+  simp [ctrObfuscate, hf, hdh]
+
+/-- the same for GCM -/
+theorem obfuscate_rejects_low_order_gcm (C : Crypto) (draws : List C.Priv) (rb : UInt8) (pt : Bytes)
+    (pub : C.Pub) (k : C.Priv) (r : Bytes) (hf : firstRepresentable C draws = some (k, r))
+    (hdh : C.dh k pub = none) : gcmObfuscate C draws rb pt 32 pub = .err .crypto := by
+  simp [gcmObfuscate, hf, hdh]
 
 /-- the first 32 bytes of a CTR / GCM encoding are the masked representative -/
 theorem obfuscate_prefix_ctr (C : Crypto) (pubOf : C.Priv → C.Pub) (L : CryptoLaws C pubOf)
@@ -434,5 +692,123 @@ example : validName [[0x61, 0x62], [0x63]] := by unfold validName; decide
 example : (⟨1, 0x100, [⟨[[0x61]], 16, 1⟩], [], [], [⟨[], 41, 4096, 0, []⟩]⟩ : Message).WF := by
   constructor <;> simp [validName] <;> decide
 example : xorObfuscate [1, 2, 3] [7, 7] = .ok [1, 2, 1 ^^^ 7, 2 ^^^ 7] := by decide
+
+/-! ### the DNS channel: toy Noise, concrete exchanges -/
+
+/-- a toy stand-in for Noise that satisfies `NoiseLaws`: a one-byte header in front of the plaintext -/
+def toySeal (p : Bytes) : Bytes := 0x4e :: p
+def toyOpen : Bytes → Option Bytes
+  | 0x4e :: p => some p
+  | _ => none
+theorem toyNoise : NoiseLaws toySeal toyOpen := ⟨fun _ => rfl⟩
+
+example : (addRequestFormat [1, 2]).bind (fun e => removeRequestFormat (e ++ [9, 9, 9])) = .ok [1, 2] :=
+  frame_roundtrip_request [1, 2] (by decide) [9, 9, 9]
+example : (addResponseFormat [1, 2]).bind (fun e => removeResponseFormat (e ++ List.replicate 4092 0)) = .ok [1, 2] :=
+  frame_roundtrip_response [1, 2] (by decide) _
+
+/-- the request path is exercised: the encoder accepts a registration under `t.example.com`, and what
+it produces is decoded to the registration -/
+example : ∃ buf, requestEncode toySeal toyEnc exampleDom 7 [1, 2, 3] = .ok buf ∧
+    requestDecode toyOpen toyDec exampleDom 1232 buf = some [1, 2, 3] := by
+  have hok : (requestEncode toySeal toyEnc exampleDom 7 [1, 2, 3]).isOk = true :=
+    (request_accepts_iff_capacity toySeal toyEnc exampleDom 7 [1, 2, 3] (by decide)).mpr (by decide)
+  obtain ⟨buf, hb⟩ := Outcome.isOk_iff.mp hok
+  exact ⟨buf, hb, request_path_roundtrip toySeal toyOpen toyNoise toyEnc toyDec toyB32 exampleDom 7 1232 (by omega)
+    [1, 2, 3] buf hb⟩
+
+/-- `request_rejects_oversize`: a Noise message of 256 bytes -/
+example : 255 < ((fun p : Bytes => List.replicate 256 (0 : UInt8) ++ p) [1]).length := by
+  show 255 < (List.replicate 256 (0 : UInt8) ++ [1]).length
+  rw [List.length_append, List.length_replicate]
+  decide
+
+/-- `request_rejects_long_name`: a short registration under a 249-byte base domain -/
+example : (toySeal [1, 2, 3]).length ≤ 255 ∧
+    (∀ l ∈ List.replicate 4 (List.replicate 61 (0x61 : UInt8)), 0 < l.length ∧ l.length ≤ 63) ∧
+    255 < nameWireLen (requestName toySeal toyEnc (List.replicate 4 (List.replicate 61 0x61)) [1, 2, 3]) := by
+  refine ⟨by decide, by simp, ?_⟩
+  rw [requestName, query_capacity]
+  decide
+
+/-- `ResponseShape` is what `responseFor` returns for an accepted query (see `exchange_roundtrip`) -/
+example : ResponseShape (okResponse 7 ([[0x61]] ++ exampleDom)) exampleDom :=
+  okResponse_shape 7 [[0x61]] exampleDom (by unfold validName; decide)
+
+/-- the response path is exercised, including the size limit with both outcomes -/
+example : ∃ buf, responseEncode toySeal (okResponse 7 ([[0x61]] ++ exampleDom)) [9, 9] = .ok buf ∧
+    responseDecode toyOpen exampleDom buf = some [9, 9] ∧
+    responseSend toySeal (okResponse 7 ([[0x61]] ++ exampleDom)) buf.length [9, 9] = .ok buf ∧
+    (0 < buf.length) := by
+  have hS := okResponse_shape 7 [[0x61]] exampleDom (by unfold validName; decide)
+  obtain ⟨buf, he, hd⟩ := response_path_total toySeal toyOpen toyNoise _ exampleDom hS [9, 9] (by decide)
+  refine ⟨buf, he, hd, response_send_fits toySeal _ buf.length [9, 9] buf he (Nat.le_refl _), ?_⟩
+  -- the datagram parses (that is how `responseDecode` got a result), so it has a header
+  unfold responseDecode at hd
+  cases hp : messageFromWireFormat buf with
+  | ok m => have := messageFromWireFormat_ok_length hp; omega
+  | err e => rw [hp] at hd; cases hd
+  | panic s => rw [hp] at hd; cases hd
+  | hang => rw [hp] at hd; cases hd
+
+/-- the whole exchange on the toy instance -/
+example : ∃ qbuf resp f rbuf, requestEncode toySeal toyEnc exampleDom 7 [1, 2, 3] = .ok qbuf ∧
+    requestDecode toyOpen toyDec exampleDom 1232 qbuf = some [1, 2, 3] ∧
+    responseFor (lenientParse qbuf) exampleDom 1232 toyDec = some (resp, some f) ∧
+    responseEncode toySeal resp [9, 9] = .ok rbuf ∧ responseDecode toyOpen exampleDom rbuf = some [9, 9] := by
+  have hok : (requestEncode toySeal toyEnc exampleDom 7 [1, 2, 3]).isOk = true :=
+    (request_accepts_iff_capacity toySeal toyEnc exampleDom 7 [1, 2, 3] (by decide)).mpr (by decide)
+  obtain ⟨qbuf, hb⟩ := Outcome.isOk_iff.mp hok
+  obtain ⟨h1, resp, f, rbuf, h2, _, h3, h4⟩ := exchange_roundtrip toySeal toyOpen toyNoise toySeal toyOpen toyNoise
+    toyEnc toyDec toyB32 exampleDom 7 1232 (by omega) [1, 2, 3] [9, 9] qbuf hb (by decide)
+  exact ⟨qbuf, resp, f, rbuf, hb, h1, h2, h3, h4⟩
+
+/-- `responseFor` on the registrar's own query, computed: NOERROR with AA, the question echoed, its OPT RR -/
+example : responseFor (queryMessage 7 [[0x41], [0x74]]) [[0x74]] 1232 (fun t => if t = [0x41] then some [0] else none) =
+    some (⟨7, 0x8400, [⟨[[0x41], [0x74]], 16, 1⟩], [], [], [optRR 0]⟩, some [0]) := by decide
+/-- … and on queries it refuses: a response (QR = 1) gets no answer at all, a second OPT RR gets FORMERR,
+EDNS version 1 gets BADVERS (extended RCODE in the OPT TTL), a foreign name gets NXDOMAIN without AA -/
+example : responseFor ⟨7, 0x8100, [], [], [], []⟩ [[0x74]] 1232 (fun _ => none) = none := by decide
+example : responseFor ⟨7, 0x0100, [⟨[[0x74]], 16, 1⟩], [], [], [optRR 0, optRR 0]⟩ [[0x74]] 1232 (fun _ => none) =
+    some (⟨7, 0x8001, [⟨[[0x74]], 16, 1⟩], [], [], [optRR 0]⟩, none) := by decide
+example : responseFor ⟨7, 0x0100, [⟨[[0x74]], 16, 1⟩], [], [], [optRR 0x00010000]⟩ [[0x74]] 1232 (fun _ => none) =
+    some (⟨7, 0x8000, [⟨[[0x74]], 16, 1⟩], [], [], [optRR 0x01000000]⟩, none) := by decide
+example : responseFor ⟨7, 0x0100, [⟨[[0x75]], 16, 1⟩], [], [], [optRR 0]⟩ [[0x74]] 1232 (fun _ => none) =
+    some (⟨7, 0x8003, [⟨[[0x75]], 16, 1⟩], [], [], [optRR 0]⟩, none) := by decide
+
+/-- `response_send_oversize`: a limit below the datagram's length -/
+example : ∃ b0, responseEncode toySeal (okResponse 7 ([[0x61]] ++ exampleDom)) [9, 9] = .ok b0 ∧ 0 < b0.length := by
+  have hS := okResponse_shape 7 [[0x61]] exampleDom (by unfold validName; decide)
+  obtain ⟨buf, he, hd⟩ := response_path_total toySeal toyOpen toyNoise _ exampleDom hS [9, 9] (by decide)
+  refine ⟨buf, he, ?_⟩
+  unfold responseDecode at hd
+  cases hp : messageFromWireFormat buf with
+  | ok m => have := messageFromWireFormat_ok_length hp; omega
+  | err e => rw [hp] at hd; cases hd
+  | panic s => rw [hp] at hd; cases hd
+  | hang => rw [hp] at hd; cases hd
+
+/-- a toy instance whose X25519 refuses one station key (`false`), for `obfuscate_rejects_low_order_*` -/
+def toyCryptoLow : Crypto where
+  Priv := Unit
+  Pub := Bool
+  dh := fun _ b => if b then some [1, 2, 3] else none
+  reprOf := fun _ => some (List.replicate 32 0)
+  pubOfRepr := fun _ => true
+  hash := fun s => s ++ List.replicate 32 7
+  ctr := fun _ _ x => some (x.map (· ^^^ 0x5a))
+  gcmSeal := fun _ _ x => some (x ++ List.replicate 16 9)
+  gcmOpen := fun _ _ y => some (y.take (y.length - 16))
+
+example : firstRepresentable toyCryptoLow [()] = some ((), List.replicate 32 0) ∧
+    toyCryptoLow.dh () false = none := ⟨rfl, rfl⟩
+example : ctrObfuscate toyCryptoLow [()] 0 [1, 2] 32 false = .err .crypto :=
+  obfuscate_rejects_low_order_ctr toyCryptoLow [()] 0 [1, 2] false () _ rfl rfl
+example : gcmObfuscate toyCryptoLow [()] 0 [1, 2] 32 false = .err .crypto :=
+  obfuscate_rejects_low_order_gcm toyCryptoLow [()] 0 [1, 2] false () _ rfl rfl
+example : ctrObfuscate toyCrypto [()] 0 [1] 31 () = .err .keyLen :=
+  obfuscate_rejects_keylen_ctr toyCrypto [()] 0 [1] 31 () (by decide)
+example : gcmObfuscate toyCrypto [()] 0 [1] 33 () = .err .keyLen :=
+  obfuscate_rejects_keylen_gcm toyCrypto [()] 0 [1] 33 () (by decide)
 
 end CJ.Props.C15
